@@ -54,6 +54,8 @@ enum {
   PT_WORKER_TASK_BEGIN = 6,
   PT_WORKER_TASK_END = 7,
   PT_WORKER_EXIT = 8,
+  PT_POOL_STOP_LOCKED = 9,  // stop_all_workers: inside its critical section, flags not yet set
+  PT_POOL_ADD_LOCKED = 10,  // add_task: inside its critical section, task not yet in the queue
   PT_BLOCK_QUEUED = 20,   // a = block index
   PT_BLOCK_BEGIN = 21,
   PT_BLOCK_BUILT = 22,
